@@ -199,6 +199,8 @@ static atomic_int sp_kind = 0;      /* 0 off, 1 role, 2 worker index, 3 main thr
 static atomic_int sp_val = 0, sp_k = 0, sp_count = 0, sp_fn = 0;
 atomic_int sp_paused = 0;           /* 0 not (yet), 1 paused now, 2 resumed */
 atomic_int sp_release = 0;
+static atomic_int sp_sleepers = 0;      /* application threads inside a library usleep ("everything in flight settles, then time passes"): a parked receiver goes on */
+static atomic_int sp_joining_tid = -1;   /* thread id some pthread_join is waiting for: a paused thread that is being joined resumes (the joiner can do nothing else) */
 __thread int hx_widx = -1;
 static int blocked_by_me(void);
 NOINST void mon_pause_arm(int kind, int val, int k, int fn) {
@@ -218,6 +220,8 @@ NOINST static void sched_point(const char *kind, const char *name) {
 	while (waited < 4000000) {
 		if (sp_release) { why = "released"; break; }
 		if (blocked_by_me()) { why = "waiter"; break; }
+		if (sp_joining_tid == hx_tid) { why = "joiner"; break; }
+		if (hx_role == ROLE_RECEIVER && sp_sleepers > 0 && waited > 20000) { why = "sleeper"; break; }
 		__real_usleep(40); waited += 40;
 	}
 	sp_paused = 2;
@@ -511,7 +515,9 @@ NOINST int __wrap_pthread_join(pthread_t h, void **ret) {
 		hx_violation("join-not-live", "pthread_join on a handle that is not a live unjoined library thread (last owner: %s)", which);
 		return ESRCH;
 	}
+	sp_joining_tid = rec->tid;
 	int r = __real_pthread_join(h, ret);
+	sp_joining_tid = -1;
 	if (rec->role == ROLE_RECEIVER) bus_set_receiver_alive(0);
 	ev("\"e\":\"thr_join\",\"joined\":%d,\"routine\":\"%s\",\"rc\":%d", rec->tid, rec->routine, r);
 	return r;
@@ -554,7 +560,9 @@ NOINST int __wrap_usleep(unsigned int us) {
 	case ROLE_HARNESS: return __real_usleep(us);
 	default: {
 		/* application thread inside start/stop/reset/enumeration: "let everything in flight settle, then time passes" */
+		atomic_fetch_add(&sp_sleepers, 1);
 		bus_wait_quiescent(30000);      /* logical condition; the bound only matters on a machine so loaded that the receiver does not run */
+		atomic_fetch_sub(&sp_sleepers, 1);
 		vt_advance_us(us);
 		/* logical bound instead of a wall clock: a single call that sleeps through more than vt_call_limit virtual seconds (a start
 		 * takes about 3-10, a stop about 1) is polling for something that will never come - the call does not terminate */
